@@ -119,6 +119,23 @@ def create_marker_cache_from_specified_markers(
             log=log,
             min_markers=min_markers)
 
+    # parents that actually have to choose between children
+    # (only these need markers in the query set)
+    if taxonomy_tree is not None:
+        voting_parents = set()
+        for parent in taxonomy_tree.all_parents:
+            if parent is None:
+                parent_str = 'None'
+                children = taxonomy_tree.children(level=None, node=None)
+            else:
+                parent_str = f'{parent[0]}/{parent[1]}'
+                children = taxonomy_tree.children(
+                    level=parent[0], node=parent[1])
+            if len(children) > 1:
+                voting_parents.add(parent_str)
+    else:
+        voting_parents = None
+
     query_gene_set = set(query_gene_names)
     reference_gene_set = set(reference_gene_names)
     final_marker_lookup = dict()
@@ -132,7 +149,10 @@ def create_marker_cache_from_specified_markers(
         marker_set = set(marker_lookup[parent_node])
         these_markers = list(marker_set.intersection(query_gene_set))
 
-        if len(these_markers) == 0 and len(marker_set) > 0:
+        needs_markers = (voting_parents is None
+                         or parent_node in voting_parents)
+
+        if len(these_markers) == 0 and len(marker_set) > 0 and needs_markers:
             these_markers = list(query_gene_set)
             msg = f"No markers at parent node '{parent_node}' were present "
             msg += "in query set."
